@@ -196,7 +196,7 @@ SearchN(vs, cp, dir, cnt, r, o, fwdcmd) ==
     (* "a count repeats the search": N/re is /re followed by n, N - 1 times.  (The pinned tree advanced the position by the length
        of the match between the repetitions of a typed "/" and so skipped a match beginning right where the previous one ended;
        the reference had transcribed that, wrongly - see known_findings.jsonl, fixed in a651967.) *)
-    ELSE SearchN(vs, cp, dir, cnt - 1, a[2], a[3], fwdcmd)
+    ELSE SearchN(vs, cp, dir, cnt - 1, a[2], Noeol(FL(vs, a[2]), a[3]), fwdcmd)      \* from where the cursor would be (never the terminator)
 
 (* ---- motions: <<status, vs', r, o>>; status 0 = not a motion, -1 = failed, else the motion (a string) ------------ *)
 (* m = [k, ch, re, so]; cnt: effective count (0: none given) *)
@@ -267,7 +267,9 @@ MotionCh(vs, m, cnt0, r, o) ==     \* <<ok, vs', r, o>> for the character motion
            IN <<TRUE, vs, S(cnt, r), 0>>
       [] m.k = "0" -> <<TRUE, vs, r, 0>>
       [] m.k = "^" -> <<TRUE, vs, r, Indents(l)>>
-      [] m.k = "$" -> <<TRUE, vs, r, Eol(l)>>
+      (* N$: the end of the line N - 1 below; fails when there is no such line *)
+      [] m.k = "$" -> IF cnt > 1 /\ r + cnt - 1 >= NR(vs) THEN <<FALSE, vs, r, o>>
+                      ELSE <<TRUE, vs, r + cnt - 1, Eol(FL(vs, r + cnt - 1))>>
       [] m.k = "|" -> <<TRUE, [vs EXCEPT !.pcol = cnt - 1], r, Col2Off(l, cnt - 1)>>
       [] m.k = " " -> LET a == Repeat(vs, LAMBDA v, rr, oo : LET x == LnNext(v, 1, rr, oo) IN <<~x[1], x[2], x[3]>>, cnt, r, o) IN <<TRUE, vs, a[1], a[2]>>
       [] m.k = "^H" -> LET a == Repeat(vs, LAMBDA v, rr, oo : LET x == LnNext(v, -1, rr, oo) IN <<~x[1], x[2], x[3]>>, cnt, r, o) IN <<TRUE, vs, a[1], a[2]>>
@@ -328,7 +330,8 @@ RegionText(vs, r1, o1, r2, o2) ==       \* lbuf_region(): text with newlines
 SetText(vs, text, beg, end) == [vs EXCEPT !.ed = EdEdit(vs.ed, SplitLines(text), TRUE, beg, end)]
 DelRows(vs, beg, end) == [vs EXCEPT !.ed = EdEdit(vs.ed, <<>>, FALSE, beg, end)]
 YankTo(vs, reg, text, ln) == [vs EXCEPT !.ed.regs = RegPut(vs.ed.regs, reg, text, ln)]
-Inclusive == {"f", "F", "t", "T", "e", "E", "%"}
+(* the motions whose target character belongs to the region; ; and , repeat an inclusive character search *)
+Inclusive == {"f", "F", "t", "T", ";", ",", "e", "E", "%"}
 Lower(c) == IF c >= 65 /\ c <= 90 THEN c + 32 ELSE c
 Upper(c) == IF c >= 97 /\ c <= 122 THEN c - 32 ELSE c
 CaseMap(t, how) == [i \in 1..Len(t) |-> IF t[i] > 127 THEN t[i]
